@@ -80,6 +80,9 @@ STUB_BATCHES = [["h2o"], ["h2o", "h2"], ["ch4", "hf"], ["nh3"], ["h2co", "h2o"],
 PINNED_SWITCH_CROSSING = {"engine": "exc_basic", "kind": "family", "driver": "real", "batch": ["h2co"], "rotate": 275791356, "dt": 0.5, "steps": 30, "scf_eps": 1e-10, "temp": 300.0, "n_states": 3, "seed": 836656, "variants": ["reuse_off", "cadence_mix"], "com_stride": 1}
 
 
+PINNED_DEGENERATE_EXCITED = {"engine": "exc_basic", "kind": "family", "driver": "real", "batch": ["ch4"], "distort": 0.15, "geom_seed": 7, "dt": 0.5, "steps": 30, "scf_eps": 1e-10, "temp": 300.0, "n_states": 3, "active_state": 1, "variants": ["reuse_off", "cadence_mix"], "com_stride": 1}
+
+
 def gen(rng, tier, i):
     real_frac = 0.03 if tier == "quick" else 0.06
     u = rng.random()
@@ -99,8 +102,13 @@ def gen(rng, tier, i):
             cfg["steps"] = rng.choice([40, 60])
         cfg["scf_eps"] = 1e-10
         cfg["temp"] = 300.0
-        if rng.random() < 0.3 and i != 0:
-            cfg.update(engine="exc_basic", batch=["h2co"], n_states=3, steps=30)
+        if rng.random() < 0.4 and i != 0:
+            # excited active surface; methane has a triply degenerate HOMO whose members change order along the trajectory
+            cfg.update(engine="exc_basic", batch=rng.choice([["h2co"], ["ch4"], ["ch4"]]), n_states=3, steps=30, active_state=rng.randint(1, 2))
+            if cfg["batch"] == ["ch4"]:
+                # start away from the tetrahedral geometry: there the three lowest excited states are degenerate (a
+                # conical intersection), adiabatic dynamics on "state 1" is not smooth and no dt-convergence is owed
+                cfg.update(distort=0.15, geom_seed=rng.randrange(1 << 20))
     else:
         cfg["driver"] = "stub"
         cfg["batch"] = rng.choice(STUB_BATCHES)
@@ -179,6 +187,27 @@ def _series(data, m):
     return g("data/steps"), g("coordinates/values"), g("velocities/values"), g("forces/values"), g("data/thermo/Ek"), g("data/thermo/Ep"), g("data/thermo/T")
 
 
+def _child_single_points(cfg, coords):
+    """Fresh objects, no history: the potential energy (active surface) at the given coordinates of molecule 0..n."""
+    import torch
+
+    from seqm.ElectronicStructure import Electronic_Structure
+    from seqm.Molecule import Molecule
+    from seqm.seqm_functions.constants import Constants
+
+    torch.set_num_threads(1)
+    torch.set_default_dtype(torch.float64)
+    sp_np, _ = mdsim.build_batch(cfg)
+    out = []
+    for x in coords:
+        sp = mdsim.seqm_parameters(cfg)
+        mol = Molecule(Constants(), sp, torch.as_tensor(np.array(x)), torch.as_tensor(sp_np, dtype=torch.int64))
+        mol.verbose = False
+        Electronic_Structure(sp)(mol)
+        out.append(mol.Etot.detach().tolist())
+    return out
+
+
 def np_verlet(x, v, mass, real, p, dt, steps):
     """Independent velocity Verlet for the stub potential (own unit conversions)."""
     inv = np.where(mass > 0, 1.0 / np.where(mass > 0, mass, 1.0), 0.0)[:, None]
@@ -236,6 +265,32 @@ def _execute(record, root):
         if h["pad"] > 0:
             failures.append(core.fail("padding-moves", f"padding atoms moved/accelerated ({h['pad']:.2e})", classify=cls))
 
+    if real_drv:
+        # ---- truthful output on the real driver: a fresh single point (new objects, no trajectory history) at the
+        # positions written for a step reproduces the potential energy written for that step
+        st_all = _series(base, 0)[0]
+        rows = sorted({0, len(st_all) // 3, (2 * len(st_all)) // 3, len(st_all) - 1})
+        nmax = sp.shape[1]
+        coords = []
+        for r_ in rows:
+            xx = np.zeros((nm, nmax, 3))
+            for m in range(nm):
+                xm = _series(base, m)[1][r_]
+                xx[m, : xm.shape[0]] = xm
+            coords.append(xx.tolist())
+        stc, payload = core.run_in_child(_child_single_points, (member(cfg, 1), coords), timeout=900, stdout_path=os.path.join(root, "sp.txt"))
+        if stc == 0 and payload and "ok" in payload:
+            for r_, e_fresh in zip(rows, payload["ok"]):
+                for m in range(nm):
+                    ep_w = float(_series(base, m)[5][r_])
+                    dev = abs(ep_w - e_fresh[m])
+                    worst("Ep_written_vs_fresh_single_point_eV", dev)
+                    stats["rows_checked"] += 1
+                    if dev > tol["ep_fresh_abs_real"]:
+                        failures.append(core.fail("potential-energy-of-other-step", f"mol {m}: the potential energy written for step {int(st_all[r_])} ({ep_w:.9f} eV) is not the energy of the positions written for that step (a fresh single point there gives {e_fresh[m]:.9f} eV, difference {dev:.3e}); engine {cfg['engine']}", classify=cls))
+                        break
+        else:
+            failures.append(core.fail("run-failed", f"fresh single point at written positions raised {str(payload)[:300]}", classify=cls))
     e1s, e2s, f1s, f2s = [], [], [], []
     for m in range(nm):
         nat = int((sp[m] > 0).sum())
@@ -495,6 +550,9 @@ class C08(core.Check):
         # pinned history (found by the seed-777 soak, fixed by d7687a5 in /repo): excited-state BOMD whose C-H distance
         # passes through the |x| = 0.5 switch of the overlap's B functions exactly at a step of the dt/4 member
         recs[1] = {"i": 1, "cfg": dict(PINNED_SWITCH_CROSSING, cad=recs[1]["cfg"]["cad"])}
+        # pinned family: excited-state BOMD of methane (triply degenerate HOMO: the members change energetic order along
+        # the trajectory, which exercises the orbital tracking between steps)
+        recs[2] = {"i": 2, "cfg": dict(PINNED_DEGENERATE_EXCITED, cad=recs[2]["cfg"]["cad"], seed=recs[2]["cfg"]["seed"], rotate=recs[2]["cfg"].get("rotate") or 12345)}
         return recs
 
     def shrink_candidates(self, rec):
